@@ -188,3 +188,22 @@ pub open spec fn tx3g_at(d: Seq<u8>, q: int, b: Tx3gBox) -> bool {
     &&& forall|i: int| 0 <= i < 4 ==> #[trigger] b.box_record[i] == be16(d, q + 18 + 2 * i) as i16
     &&& forall|i: int| 0 <= i < 12 ==> #[trigger] b.style_record[i] == d[q + 26 + i]
 }
+
+// ---- elst (8.6.6), decode side; p = start of the box in the 8-byte-header convention:
+//   FullBox, entry_count(32), { segment_duration, media_time: 64 bits each if version == 1 else 32; media_rate_integer(16) media_rate_fraction(16) }
+pub open spec fn elst_esz(version: u8) -> int { if version == 1 { 20 } else { 12 } }
+pub open spec fn elst_entry_at(d: Seq<u8>, o: int, version: u8, e: ElstEntry) -> bool {
+    if version == 1 {
+        e.segment_duration == be64(d, o) && e.media_time == be64(d, o + 8) && e.media_rate == be16(d, o + 16) && e.media_rate_fraction == be16(d, o + 18)
+    } else {
+        e.segment_duration == be32(d, o) as u64 && e.media_time == be32(d, o + 4) as u64 && e.media_rate == be16(d, o + 8) && e.media_rate_fraction == be16(d, o + 10)
+    }
+}
+pub open spec fn elst_entries_at(d: Seq<u8>, p: int, version: u8, e: Seq<ElstEntry>, n: int) -> bool {
+    forall|j: int| 0 <= j < n ==> elst_entry_at(d, p + 16 + elst_esz(version) * j, version, #[trigger] e[j])
+}
+pub open spec fn elst_at(d: Seq<u8>, p: int, b: ElstBox) -> bool {
+    &&& fullbox_at(d, p, b.version, b.flags)
+    &&& be32(d, p + 12) == b.entries@.len()
+    &&& elst_entries_at(d, p, b.version, b.entries@, b.entries@.len() as int)
+}
